@@ -80,15 +80,18 @@ pub fn model_decrypt(key: u8, nonce: &[u8], ct: &[u8], aad: &[u8]) -> Result<Vec
     unsafe {
         DEC_CALLS += 1;
         let e = &LOG[(key & 1) as usize];
-        if e.valid
-            && e.key == key
-            && ct.len() >= TAG_LEN
-            && nonce == &e.nonce[..]
-            && aad.len() == e.aad_len
-            && aad == &e.aad[..e.aad_len]
-            && ct.len() == e.ct_len
-            && ct == &e.ct[..e.ct_len]
-        {
+        if !e.valid || e.key != key || ct.len() < TAG_LEN || nonce.len() != NONCE_LEN || aad.len() != e.aad_len || ct.len() != e.ct_len || aad.len() > MAX_AAD || ct.len() > MAX_CT {
+            return Err(DecryptError);
+        }
+        // compare zero-padded fixed-size copies (memcmp over a constant length: a comparison of
+        // two slices of symbolic length is unrolled to the memcmp bound on every infeasible path)
+        let mut a = [0u8; MAX_AAD];
+        a[..aad.len()].copy_from_slice(aad);
+        let mut c = [0u8; MAX_CT];
+        c[..ct.len()].copy_from_slice(ct);
+        let mut n = [0u8; NONCE_LEN];
+        n.copy_from_slice(nonce);
+        if n == e.nonce && a == e.aad && c == e.ct {
             DEC_OK += 1;
             Ok(ct[..ct.len() - TAG_LEN].to_vec())
         } else {
@@ -118,6 +121,64 @@ pub fn symbolic_model_randomness() {
         LOG = [EMPTY_ENTRY; 2];
         DEC_OK = 0;
         DEC_CALLS = 0;
+    }
+}
+
+/// Recording cipher: `decrypt` stores its arguments (up to two calls) and always refuses.
+/// Used to decide "would the ideal AEAD accept this call?" outside the decoder: the decoder depends
+/// on the cipher only through the return value of `decrypt`, so
+///   ideal-AEAD behaviour of the decoder on an input
+///     = behaviour with a refusing cipher, if every recorded call differs from the logged triple,
+///     = behaviour with an accepting cipher, if the recorded call is the logged triple.
+/// (Running the accepting path symbolically costs > 15 min per decode here: the decrypted
+/// plaintext lives on the heap, where CBMC loses all constants.)
+pub static mut PROBE: [LogEntry; 2] = [EMPTY_ENTRY; 2];
+pub static mut PROBE_CALLS: usize = 0;
+pub static mut PROBE_OVERFLOW: bool = false;
+pub struct ProbeCipher;
+impl zeroize::ZeroizeOnDrop for ProbeCipher {}
+impl Cipher for ProbeCipher {
+    fn encrypt(&self, _b: &mut [u8], _n: usize, _aad: &[u8]) -> std::io::Result<EncryptResult> {
+        Err(std::io::ErrorKind::Other.into())
+    }
+    fn decrypt(&self, nonce: &[u8], ct: &[u8], aad: &[u8]) -> Result<Vec<u8>, DecryptError> {
+        unsafe {
+            let k = PROBE_CALLS;
+            PROBE_CALLS += 1;
+            if k >= 2 || aad.len() > MAX_AAD || ct.len() > MAX_CT {
+                PROBE_OVERFLOW = true;
+            } else {
+                let e = &mut PROBE[k];
+                e.valid = nonce.len() == NONCE_LEN;
+                if e.valid {
+                    e.nonce.copy_from_slice(nonce);
+                }
+                e.aad_len = aad.len();
+                e.aad[..aad.len()].copy_from_slice(aad);
+                e.ct_len = ct.len();
+                e.ct[..ct.len()].copy_from_slice(ct);
+            }
+        }
+        Err(DecryptError)
+    }
+    fn key_bytes(&self) -> &[u8] {
+        &[]
+    }
+}
+pub fn probe_reset() {
+    unsafe {
+        PROBE = [EMPTY_ENTRY; 2];
+        PROBE_CALLS = 0;
+        PROBE_OVERFLOW = false;
+    }
+}
+/// Would the ideal AEAD (ghost log entry of `key`) accept recorded call `k`?
+pub fn probe_call_is_logged(k: usize, key: u8) -> bool {
+    unsafe {
+        let p = &PROBE[k];
+        let e = &LOG[(key & 1) as usize];
+        // both buffers are zero beyond their length, so equal lengths + equal arrays = equal data
+        e.valid && p.valid && p.nonce == e.nonce && p.aad_len == e.aad_len && p.ct_len == e.ct_len && p.aad == e.aad && p.ct == e.ct
     }
 }
 
